@@ -11,6 +11,7 @@ import Proofs.Parsers
 import Proofs.NetworkMeta
 import Proofs.NetworkMultiMeta
 import Proofs.MetaHistory
+import Proofs.UnifiedMeta
 import Props.C01
 namespace C08
 open Esdt
@@ -285,5 +286,63 @@ theorem supply_operations_keep_metadata (m0 : MetaData) (k : Bytes) (hk : TokKey
     (hI : SInv A) (hok : SStepsOK steps A) (hms : ∀ s ∈ steps, MStepOK k s) (hM : AllMd m0 k A) :
     AllMd m0 k (srun steps A).1 :=
   meta_history_run m0 k hk steps A hI hok hms hM
+
+/-! ### metadata in the ONE world that mixes all 23 functions (Proofs/UnifiedMeta.lean) -/
+
+/-- FULL (histories; every function, every interleaving, any number of shards): in the world where the three transfer
+    functions (user transactions, deliveries, refusals, refunds — each kind of message in flight) are interleaved in any
+    order with calls of the 20 other functions by anybody on any shard, every copy of the NFT stored under key `k` — on any
+    shard, as the payload of an ESDTNFTTransfer message, as an item of a MultiESDTNFTTransfer message — has the metadata
+    `m0` after the history if every copy had it before.  Hypotheses: the world invariant and `UMdInv` of the INITIAL world,
+    the admissibility of each step (`UStepOK`), and for the NFT under `k` (`UMdStepOK`): token identifiers do not alias
+    (no fungible operation or ESDTTransfer is aimed at `k`), a create does not issue the nonce of `k` again (C07), and
+    ESDTNFTAddURI / ESDTNFTUpdateAttributes — the two functions that DO change metadata (`addURI_exact`,
+    `updateAttributes_exact`) — are aimed at other entries. -/
+theorem metadata_intact_in_mixed_world (m0 : MetaData) (k : Bytes) (hk : TokKey k) (e : Env) (steps : List UStep)
+    (w : UWorld) (hI : UInv e w) (hok : UStepsOK e steps w) (hmk : UMdStepsOK e k steps) (hM : UMdInv m0 k w) :
+    UMdInv m0 k (urun e steps w).1 :=
+  unified_md_history m0 k hk e steps w hI hok hmk hM
+
+/-- what the invariant gives for one stored entry -/
+theorem mixed_world_entry (m0 : MetaData) (k : Bytes) (hk : TokKey k) (e : Env) (steps : List UStep)
+    (w : UWorld) (hI : UInv e w) (hok : UStepsOK e steps w) (hmk : UMdStepsOK e k steps) (hM : UMdInv m0 k w)
+    (A : Accts) (hA : A ∈ (urun e steps w).1.shards) (a : Bytes) (t : Token)
+    (hne : A.read a k ≠ []) (hdec : decToken (A.read a k) = some t) : t.md = some m0 :=
+  (metadata_intact_in_mixed_world m0 k hk e steps w hI hok hmk hM).shards A hA a t hne hdec
+
+/-! non-vacuity: the two-shard world of C01's multi-transfer example; alice sends her 3 SFT pieces and 5 fungible tokens to
+    bob in one multi transfer, 2 more fungible tokens by ESDTTransfer while that message is in flight; bob sends one piece
+    back by ESDTNFTTransfer; all three messages are delivered: alice holds 1 piece, bob 2, both with the metadata -/
+def uvMd : MetaData := { nonce := 1, name := [110], creator := C01.nvAlice, hash := [104] }
+def uvW0 : UWorld := { shards := C01.nvMW0.shards, ft := [], nft := [], multi := [] }
+def uvFtx : Call := { fn := fnESDTTransfer, caller := C01.nvAlice, rcv := C01.nvBob, args := [C01.nvFT, [2]], gas := 100 }
+def uvBack : Call :=
+  { fn := fnESDTNFTTransfer, caller := C01.nvBob, rcv := C01.nvBob, args := [C01.nvNFT, [1], [1], C01.nvAlice], gas := 1000 }
+def uvSteps : List UStep :=
+  [.multi (.user C01.nvMXfer), .ft (.user uvFtx), .multi (.deliver 0), .nft (.user uvBack), .ft (.deliver 0), .nft (.deliver 0)]
+
+def uvFinal : UWorld := (urun C01.nvEnv uvSteps uvW0).1
+example : uvFinal.shards.map (fun A => (balAt A C01.nvKey, balAt A C01.nvFKey)) = [(1, 3), (2, 7)] ∧
+    uvFinal.ft.length = 0 ∧ uvFinal.nft.length = 0 ∧ uvFinal.multi.length = 0 ∧
+    (uvFinal.shards[0]?.map fun A => (decToken (A.read C01.nvAlice C01.nvKey)).map (·.md == some uvMd)) = some (some true) ∧
+    (uvFinal.shards[1]?.map fun A => (decToken (A.read C01.nvBob C01.nvKey)).map (·.md == some uvMd)) = some (some true) := by
+  decide +kernel
+
+example : UInv C01.nvEnv uvW0 :=
+  ⟨C01.nvMW0_inv.shards, fun _ h => (by cases h), fun _ h => (by cases h), fun _ h => (by cases h)⟩
+
+example : UStepsOK C01.nvEnv uvSteps uvW0 :=
+  ⟨⟨rfl, by decide, fun d hd => by simp [C01.nvMXfer] at hd; subst hd; decide⟩,
+   ⟨by decide, by decide⟩, trivial,
+   ⟨rfl, by decide, fun d hd => by simp [uvBack] at hd; subst hd; decide⟩, trivial, trivial, trivial⟩
+
+example : UMdStepsOK C01.nvEnv C01.nvKey uvSteps := by
+  intro st hst
+  simp only [uvSteps, List.mem_cons, List.mem_nil_iff, or_false] at hst
+  rcases hst with rfl | rfl | rfl | rfl | rfl | rfl <;> try trivial
+  intro tok h
+  simp [uvFtx] at h
+  subst h
+  decide
 
 end C08
